@@ -1,8 +1,9 @@
 //! unit: u07b
-//! properties: C06 C07
+//! properties: C06 C07 C11
 //! note: claim aggregation in OnchainTxHandler::update_claims_view_from_requests: merging claim requests never loses or duplicates an input, whatever can_merge_with answers
 //! trusted: R15 (deep slice): the aggregation loop nest of update_claims_view_from_requests verbatim as a function of the request vector; the two tests of the time-lock split are extracted as two further slices; duplicate filtering before it and claim generation after it are dropped and not claimed
 //! trusted: R15 (deep slices): update_claims_view_from_matched_txn: the body of `if at_least_one_drop { .. }` (the statement that records the split request as a bump candidate and the removal of its pending claim events) and the body of the loop that reschedules requests whose timer expired, verbatim, as functions of the candidate map, the claim id and the request; the `#[cfg(debug_assertions)]` counting assertions are dropped (cfg debug_assertions=false for these two extracts); the candidate map is an environment type: insert/remove have the std contracts, the entry API is over-approximated (key present afterwards, present values unchanged, absent value unconstrained); matching confirmed inputs to requests, split_package, the ANTI_REORG_DELAY bookkeeping and generate_claim are dropped and not claimed
+//! trusted: R15 (deep slices): update_claims_view_from_matched_txn: the two OnchainEventEntry constructions (the function-local macro clean_claim_request_after_safety_delay! and the ContentiousOutpoint loop), verbatim as functions of the transaction, the confirming block and the current height (Txid/BlockHash/ClaimId/PackageTemplate skeletons, compute_txid external_body)
 //! trusted: R6: `for i in (1..requests.len()).rev() { B }` becomes a down-counting while loop over the range evaluated once (std semantics of Range/Rev), `for j in 0..i` a counting loop; `requests[j].merge_package(..)` is written `requests.get_mut(j).unwrap().merge_package(..)` (IndexMut) with its result bound to a temporary before the `if let` so that proof hints can sit between (R9, same evaluation order); PackageTemplate is a stub with a ghost input count; can_merge_with is external_body with an unconstrained answer; merge_package is external_body with the contract proved for the real function in unit u07 (Ok: inputs are concatenated; Err: self unchanged and the argument handed back) - its pkg_wf precondition is not re-established here (assumed preserved by merging)
 //! trusted: assume_specification for core::cmp::max / core::cmp::min (std definitions): present in every unit so that a change that introduces them is verified instead of being rejected by the tool
 use vstd::prelude::*;
@@ -190,6 +191,45 @@ impl OnchainTxHandler {
     cur_height > request.timer()
 //@end
 }
+}
+// ---- what is remembered about a confirmed spend of outpoints we were claiming: the block that CONFIRMED it --------------------
+pub mod matched_events {
+use vstd::prelude::*;
+#[derive(Clone, Copy)] pub struct Txid(pub u64);
+#[derive(Clone, Copy)] pub struct BlockHash(pub u64);
+#[derive(Clone, Copy)] pub struct ClaimId(pub u64);
+pub struct PackageTemplate { pub id: u64 }
+pub struct Transaction { pub id: u64 }
+impl Transaction { #[verifier::external_body] pub fn compute_txid(&self) -> (r: Txid) ensures r.0 == self.id { unimplemented!() } }
+pub enum OnchainEvent { Claim { claim_id: ClaimId }, ContentiousOutpoint { package: PackageTemplate } }
+//@extract lightning/src/chain/onchaintx.rs :: struct OnchainEventEntry
+//@end
+//@extract lightning/src/chain/onchaintx.rs :: impl OnchainTxHandler :: fn update_claims_view_from_matched_txn
+//@slice R15
+    macro_rules! clean_claim_request_after_safety_delay { () => { let entry = $e:seq; if !self.onchain_events_awaiting_threshold_conf.contains(&entry) {
+//@with
+    fn claim_resolved_entry(tx: &Transaction, conf_height: u32, conf_hash: BlockHash, cur_height: u32, claim_id: &ClaimId) -> OnchainEventEntry { let entry = $e; entry }
+//@ret r
+//@ensures P C07,C11 a-claim-resolved-by-a-confirmed-transaction-is-remembered-under-that-transaction-and-the-block-that-confirmed-it
+    r.txid.0 == tx.id, r.height == conf_height, r.block_hash == Some(conf_hash), r.event == (OnchainEvent::Claim { claim_id: *claim_id }),
+//@mutant claim_resolution_dated_at_the_current_tip
+    height: conf_height, block_hash: Some(conf_hash), event: OnchainEvent::Claim { claim_id: *claim_id }
+//@with
+    height: cur_height, block_hash: Some(conf_hash), event: OnchainEvent::Claim { claim_id: *claim_id }
+//@end
+//@extract lightning/src/chain/onchaintx.rs :: impl OnchainTxHandler :: fn update_claims_view_from_matched_txn
+//@slice R15
+    for package in claimed_outputs_material.drain(..) { let entry = $e:seq; if !self.onchain_events_awaiting_threshold_conf.contains(&entry) {
+//@with
+    fn contentious_outpoint_entry(tx: &Transaction, conf_height: u32, conf_hash: BlockHash, cur_height: u32, package: PackageTemplate) -> OnchainEventEntry { let entry = $e; entry }
+//@ret r
+//@ensures P C07,C11 outpoints-a-confirmed-transaction-took-from-a-claim-are-remembered-under-that-transaction-and-the-block-that-confirmed-it
+    r.txid.0 == tx.id, r.height == conf_height, r.block_hash == Some(conf_hash), r.event == (OnchainEvent::ContentiousOutpoint { package }),
+//@mutant contentious_outpoint_dated_at_the_current_tip
+    height: conf_height, block_hash: Some(conf_hash), event: OnchainEvent::ContentiousOutpoint { package }
+//@with
+    height: cur_height, block_hash: Some(conf_hash), event: OnchainEvent::ContentiousOutpoint { package }
+//@end
 }
 }
 fn main() {}
